@@ -28,6 +28,43 @@ fn main() {
         println!("find_iter = {}", find_iter_seq(&re, &args[3], 50).show());
         return;
     }
+    if args[1] == "--replay" {
+        let v: serde_json::Value = serde_json::from_str(&std::fs::read_to_string(&args[2]).expect("replay file")).expect("replay json");
+        println!("replaying {} / {} : api {}", v["property"], v["monitor"], v["api"]);
+        println!("  recorded expected: {}", v["expected"]);
+        println!("  recorded observed: {}", v["observed"]);
+        let pat = v["pattern"].as_str().unwrap_or("");
+        let text = v["text"].as_str().unwrap_or("");
+        let from = v["offset"].as_u64().unwrap_or(0) as usize;
+        let opts = v["options"].clone();
+        let re = compile_with(pat, |b| {
+            if let Some(l) = opts["backtrack_limit"].as_u64() {
+                b.backtrack_limit(l as usize);
+            }
+            if let Some(c) = opts["case_insensitive"].as_bool() {
+                b.case_insensitive(c);
+            }
+            if let Some(l) = opts["delegate_size_limit"].as_u64() {
+                b.delegate_size_limit(l as usize);
+            }
+        });
+        match re {
+            Got::Val(re) => {
+                hook_config(true, Some(100_000_000));
+                println!("  now: route = {}", match route(&re) { Route::Vm { insns, delegates, .. } => format!("VM program of {} instructions, delegates {:?}", insns, delegates), r => format!("{:?}", r) });
+                println!("  now: captures_from_pos({:?}, {}) = {}", text, from, captures_from(&re, text, from).map(|c| show_caps(c)).show());
+                println!("  now: find_iter = {}", find_iter_seq(&re, text, 40).show());
+                let h = hook_take();
+                println!("  now: hook statistics: backtracks {} steps {} aux_mismatch {} shadow_faults {} {:?}", h.backtracks, h.insns, h.aux_mismatch, h.shadow_faults, h.first_fault);
+            }
+            o => println!("  now: Regex::new = {}", o.map(|_| "Ok").show()),
+        }
+        if !opts.is_null() {
+            println!("  options / extra: {}", opts);
+        }
+        println!("  (re-run the check that reported it for the verdict: ./check {} quick)", v["property"].as_str().unwrap_or("<id>"));
+        return;
+    }
     let prop = args[1].clone();
     let tier = match std::env::var("VERIF_TIER").ok().as_deref().filter(|_| false).or(Some(args[2].as_str())) {
         Some("thorough") => Tier::Thorough,
